@@ -193,7 +193,7 @@ pub fn build() -> Property {
             Phase {
                 name: "inproc",
                 kind: PhaseKind::Gen {
-                    cases: (4000, 60000),
+                    cases: (20000, 200000),
                     tape_len: gen::CONF_TAPE_LEN,
                     f: Box::new(inproc_case),
                 },
@@ -202,7 +202,7 @@ pub fn build() -> Property {
             Phase {
                 name: "cli",
                 kind: PhaseKind::Gen {
-                    cases: (480, 4000),
+                    cases: (2400, 12000),
                     tape_len: gen::CONF_TAPE_LEN,
                     f: Box::new(cli_case),
                 },
